@@ -81,6 +81,7 @@ fn main() {
         "c09_overlay" => c09::overlay(&v),
         "c09_blame" => c09::blame(&v),
         "c09_porcelain" => c09::porcelain(&v),
+        "c09_json_lines" => c09::json_lines(&v),
         "c09_note_text" => c09::note_text(&v),
         "c12_profile" => c12::profile(&v),
         "c12_callsite" => c12::callsite(&v),
